@@ -30,6 +30,19 @@ use std::time::Instant;
 
 // --- tagged components --------------------------------------------------------------------------
 
+thread_local! {
+    /// what every component call was handed: (who, api identity, block height)
+    static HANDED: std::cell::RefCell<Vec<(String, String, u64)>> = const { std::cell::RefCell::new(Vec::new()) };
+}
+
+fn api_id(api: &dyn Api) -> String {
+    api.addr_humanize(&CanonicalAddr::from(vec![1u8; 20])).map(|a| a.as_str().split('1').next().unwrap_or("").to_string()).unwrap_or_else(|_| "err".into())
+}
+
+fn handed(who: &str, api: &dyn Api, block: &BlockInfo) {
+    HANDED.with(|h| h.borrow_mut().push((who.to_string(), api_id(api), block.height)));
+}
+
 pub struct Tag<E, Q, S> {
     tag: &'static str,
     _p: PhantomData<(E, Q, S)>,
@@ -43,21 +56,24 @@ impl<E, Q, S> Module for Tag<E, Q, S> {
     type ExecT = E;
     type QueryT = Q;
     type SudoT = S;
-    fn execute<ExecC, QueryC>(&self, _a: &dyn Api, _s: &mut dyn Storage, _r: &dyn CosmosRouter<ExecC = ExecC, QueryC = QueryC>, _b: &BlockInfo, _sender: Addr, _m: E) -> AnyResult<AppResponse>
+    fn execute<ExecC, QueryC>(&self, a: &dyn Api, _s: &mut dyn Storage, _r: &dyn CosmosRouter<ExecC = ExecC, QueryC = QueryC>, b: &BlockInfo, _sender: Addr, _m: E) -> AnyResult<AppResponse>
     where
         ExecC: CustomMsg + DeserializeOwned + 'static,
         QueryC: CustomQuery + DeserializeOwned + 'static,
     {
+        handed(&format!("{}/execute", self.tag), a, b);
         Ok(AppResponse { events: vec![], data: Some(Binary::from(format!("tag:{}", self.tag).into_bytes())) })
     }
-    fn query(&self, _a: &dyn Api, _s: &dyn Storage, _q: &dyn Querier, _b: &BlockInfo, _r: Q) -> AnyResult<Binary> {
+    fn query(&self, a: &dyn Api, _s: &dyn Storage, _q: &dyn Querier, b: &BlockInfo, _r: Q) -> AnyResult<Binary> {
+        handed(&format!("{}/query", self.tag), a, b);
         Ok(Binary::from(format!("\"tag:{}\"", self.tag).into_bytes()))
     }
-    fn sudo<ExecC, QueryC>(&self, _a: &dyn Api, _s: &mut dyn Storage, _r: &dyn CosmosRouter<ExecC = ExecC, QueryC = QueryC>, _b: &BlockInfo, _m: S) -> AnyResult<AppResponse>
+    fn sudo<ExecC, QueryC>(&self, a: &dyn Api, _s: &mut dyn Storage, _r: &dyn CosmosRouter<ExecC = ExecC, QueryC = QueryC>, b: &BlockInfo, _m: S) -> AnyResult<AppResponse>
     where
         ExecC: CustomMsg + DeserializeOwned + 'static,
         QueryC: CustomQuery + DeserializeOwned + 'static,
     {
+        handed(&format!("{}/sudo", self.tag), a, b);
         Ok(AppResponse { events: vec![], data: Some(Binary::from(format!("tag:{}", self.tag).into_bytes())) })
     }
 }
@@ -75,37 +91,44 @@ impl Gov for TagGov {}
 
 pub struct TagStargate;
 impl Stargate for TagStargate {
-    fn execute_stargate<ExecC, QueryC>(&self, _a: &dyn Api, _s: &mut dyn Storage, _r: &dyn CosmosRouter<ExecC = ExecC, QueryC = QueryC>, _b: &BlockInfo, _sender: Addr, _t: String, _v: Binary) -> AnyResult<AppResponse>
+    fn execute_stargate<ExecC, QueryC>(&self, a: &dyn Api, _s: &mut dyn Storage, _r: &dyn CosmosRouter<ExecC = ExecC, QueryC = QueryC>, b: &BlockInfo, _sender: Addr, _t: String, _v: Binary) -> AnyResult<AppResponse>
     where
         ExecC: CustomMsg + DeserializeOwned + 'static,
         QueryC: CustomQuery + DeserializeOwned + 'static,
     {
+        handed("stargate/execute_stargate", a, b);
         Ok(AppResponse { events: vec![], data: Some(Binary::from(b"tag:stargate".to_vec())) })
     }
-    fn query_stargate(&self, _a: &dyn Api, _s: &dyn Storage, _q: &dyn Querier, _b: &BlockInfo, _p: String, _d: Binary) -> AnyResult<Binary> {
+    fn query_stargate(&self, a: &dyn Api, _s: &dyn Storage, _q: &dyn Querier, b: &BlockInfo, _p: String, _d: Binary) -> AnyResult<Binary> {
+        handed("stargate/query_stargate", a, b);
         Ok(Binary::from(b"\"tag:stargate\"".to_vec()))
     }
-    fn execute_any<ExecC, QueryC>(&self, _a: &dyn Api, _s: &mut dyn Storage, _r: &dyn CosmosRouter<ExecC = ExecC, QueryC = QueryC>, _b: &BlockInfo, _sender: Addr, _m: AnyMsg) -> AnyResult<AppResponse>
+    fn execute_any<ExecC, QueryC>(&self, a: &dyn Api, _s: &mut dyn Storage, _r: &dyn CosmosRouter<ExecC = ExecC, QueryC = QueryC>, b: &BlockInfo, _sender: Addr, _m: AnyMsg) -> AnyResult<AppResponse>
     where
         ExecC: CustomMsg + DeserializeOwned + 'static,
         QueryC: CustomQuery + DeserializeOwned + 'static,
     {
+        handed("stargate/execute_any", a, b);
         Ok(AppResponse { events: vec![], data: Some(Binary::from(b"tag:stargate".to_vec())) })
     }
-    fn query_grpc(&self, _a: &dyn Api, _s: &dyn Storage, _q: &dyn Querier, _b: &BlockInfo, _r: GrpcQuery) -> AnyResult<Binary> {
+    fn query_grpc(&self, a: &dyn Api, _s: &dyn Storage, _q: &dyn Querier, b: &BlockInfo, _r: GrpcQuery) -> AnyResult<Binary> {
+        handed("stargate/query_grpc", a, b);
         Ok(Binary::from(b"\"tag:stargate\"".to_vec()))
     }
 }
 
 pub struct TagWasm;
 impl Wasm<Empty, Empty> for TagWasm {
-    fn execute(&self, _a: &dyn Api, _s: &mut dyn Storage, _r: &dyn CosmosRouter<ExecC = Empty, QueryC = Empty>, _b: &BlockInfo, _sender: Addr, _m: WasmMsg) -> AnyResult<AppResponse> {
+    fn execute(&self, a: &dyn Api, _s: &mut dyn Storage, _r: &dyn CosmosRouter<ExecC = Empty, QueryC = Empty>, b: &BlockInfo, _sender: Addr, _m: WasmMsg) -> AnyResult<AppResponse> {
+        handed("wasm/execute", a, b);
         Ok(AppResponse { events: vec![], data: Some(Binary::from(b"tag:wasm".to_vec())) })
     }
-    fn query(&self, _a: &dyn Api, _s: &dyn Storage, _q: &dyn Querier, _b: &BlockInfo, _r: WasmQuery) -> AnyResult<Binary> {
+    fn query(&self, a: &dyn Api, _s: &dyn Storage, _q: &dyn Querier, b: &BlockInfo, _r: WasmQuery) -> AnyResult<Binary> {
+        handed("wasm/query", a, b);
         Ok(Binary::from(b"\"tag:wasm\"".to_vec()))
     }
-    fn sudo(&self, _a: &dyn Api, _s: &mut dyn Storage, _r: &dyn CosmosRouter<ExecC = Empty, QueryC = Empty>, _b: &BlockInfo, _m: WasmSudo) -> AnyResult<AppResponse> {
+    fn sudo(&self, a: &dyn Api, _s: &mut dyn Storage, _r: &dyn CosmosRouter<ExecC = Empty, QueryC = Empty>, b: &BlockInfo, _m: WasmSudo) -> AnyResult<AppResponse> {
+        handed("wasm/sudo", a, b);
         Ok(AppResponse::default())
     }
     fn store_code(&mut self, _c: Addr, _code: Box<dyn Contract<Empty, Empty>>) -> u64 {
@@ -262,6 +285,36 @@ impl Rt {
     }
 }
 
+// a contract whose every entry point records what it was handed (used where the chain has the default wasm keeper)
+fn rp(entry: &str, api: &dyn Api, env: &Env) {
+    handed(&format!("contract/{}", entry), api, &env.block);
+}
+fn rp_instantiate(d: DepsMut, e: Env, _i: MessageInfo, _m: Empty) -> StdResult<Response> {
+    rp("instantiate", d.api, &e);
+    Ok(Response::new())
+}
+fn rp_execute(d: DepsMut, e: Env, _i: MessageInfo, with_sub: bool) -> StdResult<Response> {
+    rp("execute", d.api, &e);
+    let r = Response::new();
+    Ok(if with_sub { r.add_submessage(cosmwasm_std::SubMsg::reply_always(WasmMsg::Execute { contract_addr: e.contract.address.to_string(), msg: Binary::from(b"false".to_vec()), funds: vec![] }, 1)) } else { r })
+}
+fn rp_query(d: Deps, e: Env, _m: Empty) -> StdResult<Binary> {
+    rp("query", d.api, &e);
+    Ok(Binary::from(b"{}".to_vec()))
+}
+fn rp_sudo(d: DepsMut, e: Env, _m: Empty) -> StdResult<Response> {
+    rp("sudo", d.api, &e);
+    Ok(Response::new())
+}
+fn rp_reply(d: DepsMut, e: Env, _m: Reply) -> StdResult<Response> {
+    rp("reply", d.api, &e);
+    Ok(Response::new())
+}
+fn rp_migrate(d: DepsMut, e: Env, _m: Empty) -> StdResult<Response> {
+    rp("migrate", d.api, &e);
+    Ok(Response::new())
+}
+
 fn show(r: AnyResult<AppResponse>) -> String {
     match r {
         Ok(a) => format!("ok:{}", a.data.map(|d| String::from_utf8_lossy(&d).to_string()).unwrap_or_else(|| "-".into())),
@@ -288,6 +341,7 @@ where
     StargateT: Stargate,
 {
     let mut t = vec![];
+    HANDED.with(|h| h.borrow_mut().clear());
     let sender = Addr::unchecked("probe-sender");
     let q = |app: &App<BankT, ApiT, StorageT, CustomT, WasmT, StakingT, DistrT, IbcT, GovT, StargateT>, r: QueryRequest<Empty>| -> String {
         match app.raw_query(&to_json_vec(&r).unwrap()) {
@@ -319,6 +373,30 @@ where
         q(app, QueryRequest::Stargate { path: "/p".into(), data: Binary::default() }),
         q(app, QueryRequest::Grpc(GrpcQuery { path: "/p".into(), data: Binary::default() }))
     ));
+    // every way into a component hands it the application's Api and current block: the privileged entry points, a
+    // batch, and (where the chain has the default wasm keeper) every entry point of a contract
+    {
+        use cw_multi_test::Executor;
+        let _ = app.sudo(cw_multi_test::SudoMsg::Bank(BankSudo::Mint { to_address: "x".into(), amount: vec![cosmwasm_std::coin(1, "ua")] }));
+        let _ = app.sudo(cw_multi_test::SudoMsg::Staking(StakingSudo::Slash { validator: "nobody".into(), percentage: cosmwasm_std::Decimal::percent(1) }));
+        let _ = app.sudo(cw_multi_test::SudoMsg::Wasm(WasmSudo { contract_addr: Addr::unchecked("nobody"), message: Binary::from(b"{}".to_vec()) }));
+        let _ = app.wasm_sudo(Addr::unchecked("nobody"), &Empty {});
+        let _ = app.execute_multi(sender.clone(), vec![CosmosMsg::Custom(Empty {}), CosmosMsg::Bank(BankMsg::Send { to_address: "x".into(), amount: vec![cosmwasm_std::coin(1, "ua")] })]);
+        let code = app.store_code(Box::new(ContractWrapper::new(rp_execute, rp_instantiate, rp_query).with_sudo(rp_sudo).with_reply(rp_reply).with_migrate(rp_migrate)));
+        if let Ok(addr) = app.instantiate_contract(code, sender.clone(), &Empty {}, &[], "reporter", Some(sender.to_string())) {
+            let _ = app.execute_contract(sender.clone(), addr.clone(), &true, &[]);
+            let _ = app.wrap().query_wasm_smart::<Empty>(addr.clone(), &Empty {});
+            let _ = app.wasm_sudo(addr.clone(), &Empty {});
+            let _ = app.sudo(cw_multi_test::SudoMsg::Wasm(WasmSudo { contract_addr: addr.clone(), message: Binary::from(b"{}".to_vec()) }));
+            let _ = app.migrate_contract(sender.clone(), addr, &Empty {}, code);
+        }
+    }
+    let want = (api_id(app.api()), app.block_info().height);
+    let seen: Vec<(String, String, u64)> = HANDED.with(|h| h.borrow().clone());
+    let mut odd: Vec<String> = seen.iter().filter(|(_, a, h)| (a.clone(), *h) != want).map(|(w, a, h)| format!("{} was handed api {} and height {}", w, a, h)).collect();
+    odd.sort();
+    odd.dedup();
+    t.push(if seen.is_empty() { "handed: nothing observed".to_string() } else if odd.is_empty() { "handed: the application's api and block".to_string() } else { format!("handed: the application has api {} and height {}, but {}", want.0, want.1, odd.join("; ")) });
     t
 }
 
@@ -330,6 +408,7 @@ fn expected_line(slot: &str, tagged: bool, rt: &Rt, storage_tagged: bool, defaul
         ("init", _) => format!("init: count=1 marker=init-{}|saw:{}", rt.seed, if storage_tagged { format!("seeded-{}", rt.seed) } else { "none".into() }),
         ("storage", true) => format!("storage: seeded-{} victim=none overwrite=new untouched=kept", rt.seed),
         ("api", true) => "api: tagapi".into(),
+        ("handed", _) => "handed: the application's api and block".into(),
         ("block", true) => {
             let b = rt.block();
             format!("block: {} {} {}", b.height, b.time.nanos(), b.chain_id)
@@ -485,7 +564,7 @@ fn main() {
     let mut rep = Report::new();
     // thorough: the same chains with several run-time seeds
     let seeds: Vec<u64> = if tier.is_thorough() { (0..16).map(|i| seed * 1000 + i).collect() } else { (0..4).map(|i| seed * 4 + i).collect() };
-    let slots = ["raw", "init", "storage", "api", "block", "bank", "custom", "wasm", "staking", "distribution", "ibc", "gov", "stargate"];
+    let slots = ["raw", "init", "storage", "api", "handed", "block", "bank", "custom", "wasm", "staking", "distribution", "ibc", "gov", "stargate"];
     for s in seeds {
         let rt = Rt { seed: s };
         let chains = match catch(|| builder_chains(&rt)) {
@@ -524,7 +603,7 @@ fn main() {
                 let got = t.iter().find(|l| l.starts_with(&format!("{}:", slot))).cloned().unwrap_or_default();
                 rep.bump("c20/slots_checked");
                 if got != want {
-                    let sig = if slot == "raw" { "built-app-storage-is-not-the-supplied-one-plus-the-init-functions-changes".to_string() } else if tagged { format!("configured-{}-lost", slot) } else if slot == "init" { "init-function-not-run-once-against-the-supplied-storage".to_string() } else { format!("unconfigured-{}-is-not-the-default", slot) };
+                    let sig = if slot == "handed" { "component-handed-another-api-or-block-than-the-application-has".to_string() } else if slot == "raw" { "built-app-storage-is-not-the-supplied-one-plus-the-init-functions-changes".to_string() } else if tagged { format!("configured-{}-lost", slot) } else if slot == "init" { "init-function-not-run-once-against-the-supplied-storage".to_string() } else { format!("unconfigured-{}-is-not-the-default", slot) };
                     rep.violate("C20", sig, format!("steps {:?}: probe shows [{}], expected [{}]", steps, got, want), json!({"steps": steps, "probe": t, "seed": s}));
                 }
             }
